@@ -267,9 +267,9 @@ def driver(variant, src, name=None, extra_src=(), link_lib=True, extra_flags=())
 def main(argv):
     vs = [a for a in argv if not a.startswith("-")]
     if "--all" in argv or not vs:
-        vs = ["plain", "asan", "sim", "simtsan"]
+        vs = ["plain", "asan", "sim", "simtsan", "simls"]
     ok = True
-    with cf.ThreadPoolExecutor(2) as ex:
+    with cf.ThreadPoolExecutor(3) as ex:
         futs = {v: ex.submit(lib, v, False) for v in vs}
         for v, f in futs.items():
             try:
